@@ -473,6 +473,84 @@ func C13(c *core.Ctx, replay string) {
 		}
 		exec(v.Size, v.R, al)
 	}
+	// reads of NON-CURRENT versions: one key of a versioned bucket written four times with
+	// different sizes; every vector of the three older sizes is read by version id (the
+	// range is a range of THAT version, whatever is stored under the key now)
+	{
+		venv := MustEnv(c, true, false, nil)
+		if venv == nil {
+			return
+		}
+		vcl := venv.Root
+		if r := CreateBucket(vcl, "rngv"); !r.OK() {
+			c.Inconclusive("create versioned bucket: %v", r)
+			venv.Close()
+			return
+		}
+		if r := PutVersioning(vcl, "rngv", "Enabled"); !r.OK() {
+			c.Inconclusive("enable versioning: %v", r)
+			venv.Close()
+			return
+		}
+		vids := map[int64]string{}
+		vobj := map[int64][]byte{}
+		for _, size := range []int64{4, 1, 3, 2} {
+			var o []byte
+			for i := int64(0); i < size; i++ {
+				o = append(o, byte('A'+i))
+			}
+			r := PutObject(vcl, "rngv", "vk", o)
+			if !r.OK() || r.Header.Get("X-Amz-Version-Id") == "" {
+				c.Inconclusive("put version of size %d: %v", size, r)
+				venv.Close()
+				return
+			}
+			vids[size], vobj[size] = r.Header.Get("X-Amz-Version-Id"), o
+		}
+		for _, v := range vecs {
+			if _, ok := vids[v.Size]; !ok || v.Size == 2 {
+				continue
+			}
+			var al [][2]int64
+			for _, a := range v.Allowed {
+				if a.Status != 416 {
+					al = append(al, [2]int64{a.Lo, a.Hi})
+				}
+			}
+			strs, present := rangeStrings(v.R)
+			for _, s := range strs {
+				q := []s3c.KV{{K: "versionId", V: vids[v.Size]}}
+				var hdrs []s3c.KV
+				if present {
+					hdrs = append(hdrs, s3c.KV{K: "Range", V: s})
+				}
+				resp := vcl.Do(s3c.Req{Method: "GET", Path: "/rngv/vk", Query: q, Headers: hdrs})
+				if resp.Err != nil {
+					resp = vcl.Do(s3c.Req{Method: "GET", Path: "/rngv/vk", Query: q, Headers: hdrs})
+				}
+				var ob rangeObs
+				if resp.Err != nil {
+					if ctl := GetObjectVersion(vcl, "rngv", "vk", vids[v.Size]); ctl.Err != nil || ctl.Status != 200 {
+						c.Inconclusive("GET by version failed: %v (control: %v)", resp.Err, ctl)
+						venv.Close()
+						return
+					}
+					ob = rangeObs{Status: 0, CR: []int64{}, CLen: -1, BLo: -2, BHi: -2}
+				} else {
+					ob = observeRange(vobj[v.Size], resp, al)
+				}
+				hl := rangeLine{Size: v.Size, R: v.R, Kind: "http", Str: s + " (older version, the key now holds 2 bytes)", O: ob}
+				lines = append(lines, hl)
+				meta = append(meta, hl)
+				nt := ""
+				if present {
+					nt = fmt.Sprintf("ver|%d|%s", v.Size, s)
+				}
+				c.Eval(nt)
+			}
+		}
+		venv.Close()
+	}
 	// thorough / code->spec direction: random large cases validated as a trace
 	nrand := c.Pick(300, 6000)
 	if replay != "" {
